@@ -473,7 +473,7 @@ func genFlushScn(t *rapid.T, prop string) flushScn {
 	total := 0
 	for i := 0; i < nc; i++ {
 		c := flushCall{}
-		c.API = rapid.SampledFrom([]string{"flush", "flush", "write", "binary", "mixed", "pieces"}).Draw(t, "api")
+		c.API = rapid.SampledFrom([]string{"flush", "flush", "write", "binary", "mixed", "pieces", "append", "ack"}).Draw(t, "api")
 		sb := s.SndBuf
 		if sb == 0 {
 			sb = 8192
@@ -514,6 +514,11 @@ func genFlushScn(t *rapid.T, prop string) flushScn {
 		s.Fires = 0
 		for i := range s.Calls {
 			s.Calls[i].Timeout = "none"
+			// the one writer is not interrupted by another caller's Flush while it is composing: a reservation
+			// that is given back in part (MallocAck) or a buffer being linked in (Append) is not atomic
+			if s.Calls[i].API == "ack" || s.Calls[i].API == "append" {
+				s.Calls[i].API = "flush"
+			}
 		}
 		if rapid.Bool().Draw(t, "secondWrite") {
 			s.SecondN = rapid.IntRange(1, 300).Draw(t, "secondN")
@@ -619,6 +624,24 @@ func runFlush(t *rapid.T, s flushScn, replay []vs.Step) *flushOutcome {
 				case "pieces":
 					for off := 0; off < len(data) && err == nil; off += e2PieceLen {
 						_, err = c.Writer().WriteBinary(data[off : off+e2PieceLen : off+e2PieceLen]) // cap == len: the last piece stays the tail node
+					}
+					if err == nil {
+						err = c.Writer().Flush()
+					}
+				case "append":
+					lb := NewLinkBuffer(call.N)
+					p, _ := lb.Malloc(call.N)
+					copy(p, data)
+					lb.Flush()
+					if err = c.Writer().Append(lb); err == nil {
+						err = c.Writer().Flush()
+					}
+				case "ack":
+					var p []byte
+					p, err = c.Writer().Malloc(call.N + 1 + call.N/3)
+					copy(p, data)
+					if err == nil {
+						err = c.Writer().MallocAck(call.N)
 					}
 					if err == nil {
 						err = c.Writer().Flush()
